@@ -61,10 +61,11 @@ def _infeasible_threshold_scaled(ctx, p1, c1, inner, ret):
     ok = any(v in used and stores.get(v, 0) == 1 for v in scales)
     ctx.ob("C03-O2", "R1 STATUS-GUARD", p1, "phase-1 INFEASIBLE threshold is scaled by the infeasibility the run started with (read from the corner cell before the inner run, written once)", ok,
            f"test `{ast.unparse(tests[0])}` compares the corner cell with an absolute tolerance: the pivots leave a residue relative to the right-hand sides (about 1e-10 at 1e6), and a feasible LP with plain integer data such as solve_lp([1], [[-3]], [-786434]) is answered INFEASIBLE", node=ret)
-    # ... and the allowance that grows with the scale is a rounding allowance: the scale is multiplied by machine epsilon
-    # (times a small constant), never by the caller's tolerance.  `eps * infeasibility` accepted a real infeasibility of
-    # 1e-4 at scale 1000 under solve_milp's eps = 1e-6 and returned a point that violates a row by a whole unit (row 64)
-    good = True
+    # ... and the threshold is the caller's eps times that scale (at least eps): a *relative* test.  An absolute eps fails
+    # on plain integer data of size 1e6 (row 56); a few ulps of the scale fail as soon as an intermediate tableau value is
+    # much larger than the scale (row 64 -> row 70: a feasible LP with |v| <= 280 was called INFEASIBLE).  What made the
+    # relative test look wrong in row 64 was solve_milp handing over eps = 1e-6 - decided under C04-O12.
+    good = False
     why = ""
     sc = {v for v in scales if v in used}
     for t in tests:
@@ -77,15 +78,15 @@ def _infeasible_threshold_scaled(ctx, p1, c1, inner, ret):
                         stack_ += [e_.left, e_.right]
                     else:
                         factors.append(e_)
-                names_ = {y.id for f_ in factors for y in ast.walk(f_) if isinstance(y, ast.Name)}
-                txt_ = [ast.unparse(f_) for f_ in factors]
-                lits_ = [f_.value for f_ in factors if isinstance(f_, ast.Constant) and isinstance(f_.value, (int, float))]
-                tiny = "sys.float_info.epsilon" in txt_ or any(0 < l_ <= 1e-13 for l_ in lits_)
-                big = [l_ for l_ in lits_ if l_ > 4096]
-                if isinstance(x.op, ast.Div) or "eps" in names_ or not tiny or big:
-                    good, why = False, f"`{ast.unparse(x)[:70]}`"
-    ctx.ob("C03-O2", "R1 STATUS-GUARD", p1, "the part of the threshold that grows with the initial infeasibility is a rounding allowance: machine epsilon times a small constant times the scale (the tolerance eps is not multiplied by the scale)", ok and good,
-           f"{why}: an allowance of eps times the scale is a *relative feasibility tolerance* - with eps = 1e-6 (solve_milp) and right-hand sides around 1000 an LP that is infeasible by 1e-4 passes phase 1, and the MILP built on it returns a point that violates a row by a whole unit as OPTIMAL", node=ret)
+                txt_ = sorted(ast.unparse(f_.operand if isinstance(f_, ast.UnaryOp) and isinstance(f_.op, ast.USub) else f_) for f_ in factors)
+                if isinstance(x.op, ast.Mult) and len(txt_) == 2 and "eps" in txt_ and any(t_ in (f"max(1.0, {v})", f"max(1, {v})", f"max({v}, 1.0)", f"max({v}, 1)") for t_ in txt_ for v in sc):
+                    good = True
+                elif isinstance(x.op, ast.Div) and ast.unparse(x.right) in [f"max(1.0, {v})" for v in sc] and any(isinstance(c_, ast.Compare) and "eps" in names_in(c_) for c_ in ast.walk(t)):
+                    good = True  # residue / scale compared with eps: the same test
+                else:
+                    why = f"`{ast.unparse(x)[:70]}`"
+    ctx.ob("C03-O2", "R1 STATUS-GUARD", p1, "the phase-1 threshold is the caller's eps times max(1, initial infeasibility): relative to the problem's own scale", ok and good,
+           f"{why or ast.unparse(tests[0])[:70]}: an absolute eps calls feasible LPs with right-hand sides around 1e6 INFEASIBLE; an allowance of a few machine epsilons of the scale does the same as soon as a pivot produces a tableau value much larger than the scale", node=ret)
 
 
 def run(ctx: Ctx):
@@ -629,17 +630,17 @@ def _v_ratio_threshold(tree):
 
 def _v_phase1_absolute_threshold(tree):
     g = M.find_func(tree, "_phase1")
-    M.replace_expr(g, lambda e: M.src_is(e, "-max(eps, 64 * sys.float_info.epsilon * infeasibility)"), M.expr("-eps"))
+    M.replace_expr(g, lambda e: M.src_is(e, "-eps * max(1.0, infeasibility)"), M.expr("-eps"))
 
 
-def _v_phase1_eps_times_scale(tree):
+def _v_phase1_ulps_of_scale(tree):
     g = M.find_func(tree, "_phase1")
-    M.replace_expr(g, lambda e: M.src_is(e, "-max(eps, 64 * sys.float_info.epsilon * infeasibility)"), M.expr("-eps * max(1.0, infeasibility)"))
+    M.replace_expr(g, lambda e: M.src_is(e, "-eps * max(1.0, infeasibility)"), M.expr("-max(eps, 64 * 2.220446049250313e-16 * infeasibility)"))
 
 
 def _t_phase1_factors_reordered(tree):
     g = M.find_func(tree, "_phase1")
-    M.replace_expr(g, lambda e: M.src_is(e, "-max(eps, 64 * sys.float_info.epsilon * infeasibility)"), M.expr("-max(infeasibility * sys.float_info.epsilon * 128, eps)"))
+    M.replace_expr(g, lambda e: M.src_is(e, "-eps * max(1.0, infeasibility)"), M.expr("-(max(1.0, infeasibility) * eps)"))
 
 
 def _v_phase1_scale_read_after_run(tree):
@@ -654,9 +655,9 @@ def _v_phase1_scale_read_after_run(tree):
     g.body.insert(k[0] + 1, scale[0])
 
 
-def _v_phase1_relative_by_division(tree):
+def _t_phase1_relative_by_division(tree):
     g = M.find_func(tree, "_phase1")
-    M.replace_expr(g, lambda e: isinstance(e, ast.Compare) and M.src_is(e, "matrix[-1][-1] < -max(eps, 64 * sys.float_info.epsilon * infeasibility)"), M.expr("matrix[-1][-1] / max(1.0, infeasibility) < -eps"))
+    M.replace_expr(g, lambda e: isinstance(e, ast.Compare) and M.src_is(e, "matrix[-1][-1] < -eps * max(1.0, infeasibility)"), M.expr("matrix[-1][-1] / max(1.0, infeasibility) < -eps"))
 
 
 def _v_forward_when_optimal(tree):
@@ -825,9 +826,9 @@ VARIANTS = [
     M.Variant("phase-1 pivot-out scans n_cols - 1 - m columns instead of all non-artificial ones (seed C03-E)", SX, _v_pivot_out_scan_short, "C03-O7"),
     M.Variant("phase-1 infeasibility judged against the absolute eps (original defect)", SX, _v_phase1_absolute_threshold, "C03-O2"),
     M.Variant("phase-1 scale read from the corner cell after the inner run, when it is (nearly) zero", SX, _v_phase1_scale_read_after_run, "C03-O2"),
-    M.Variant("phase-1 residue divided by the scale and compared with eps (a relative feasibility tolerance again)", SX, _v_phase1_relative_by_division, "C03-O2"),
-    M.Variant("phase-1 threshold eps times the initial infeasibility (repair 56 as first written: ledger row 64)", SX, _v_phase1_eps_times_scale, "C03-O2"),
-    M.Variant("twin: phase-1 rounding allowance with its factors in another order and twice the constant", SX, _t_phase1_factors_reordered, None),
+    M.Variant("twin: phase-1 residue divided by the scale and compared with eps", SX, _t_phase1_relative_by_division, None),
+    M.Variant("phase-1 threshold of 64 ulps of the initial infeasibility (repair 64 as written: ledger row 70)", SX, _v_phase1_ulps_of_scale, "C03-O2"),
+    M.Variant("twin: phase-1 threshold with its factors in the other order", SX, _t_phase1_factors_reordered, None),
     M.Variant("solve_lp forwards the phase-1 outcome when it is OPTIMAL and runs phase 2 after a failed phase 1", SX, _v_forward_when_optimal, "C03-O2"),
     M.Variant("_phase1 answers MAX_ITER when the inner run did not", SX, _v_phase1_maxiter_test_negated, "C03-O2"),
     M.Variant("artificial column without its unit entry", SX, _v_phase1_no_unit_entry, "C03-O7"),
